@@ -214,8 +214,9 @@ def main(argv=None):
         ev["coverage"]["exhaustive"] = True
         ev["coverage"]["exhaustive_scope"] = exhaustive
     ev["coverage"].update(extra)
-    os.makedirs(os.path.join(core.VERIF_ROOT, "evidence"), exist_ok=True)
-    with open(os.path.join(core.VERIF_ROOT, "evidence", f"{prop}.json"), "w") as f:
+    evdir = os.environ.get("VF_EVIDENCE_DIR") or os.path.join(core.VERIF_ROOT, "evidence")
+    os.makedirs(evdir, exist_ok=True)
+    with open(os.path.join(evdir, f"{prop}.json"), "w") as f:
         json.dump(ev, f, indent=1, default=str)
 
     print(f"{prop} tier={tier} seed={seed} evaluations={evaluations} "
